@@ -282,7 +282,16 @@ def summarise(prog, limit=60000):
                             eff = ("push", repr(v)[:80])
                     elif op == "push_str":
                         v = peel_conv(args[1])
-                        eff = ("push_str", "<value>" if is_value(v) else ("<rest>" if is_rest(args[1]) else repr(v)[:80]))
+                        one = None
+                        vs_ = strip_refs(v)
+                        if vs_.k == "call" and vs_.a[0].endswith("encode_utf8") and vs_.a[1] and is_const(strip_refs(vs_.a[1][0]), "char"):
+                            one = const_val(strip_refs(vs_.a[1][0]))          # `push_str(c.encode_utf8(..))` appends the character c
+                        elif is_const(vs_, "str") and len(const_val(vs_)) == 1:
+                            one = const_val(vs_)
+                        if one is not None:
+                            eff = ("push", one)
+                        else:
+                            eff = ("push_str", "<value>" if is_value(v) else ("<rest>" if is_rest(args[1]) else repr(v)[:80]))
                     elif op == "pop":
                         eff = ("pop",)
                     else:
@@ -336,6 +345,11 @@ def summarise(prog, limit=60000):
                     continue
                 s2 = clone(s)
                 cl = classify(d, vals, allv, t["discr_ty"], s2, st.get("wrote_buf"), st.get("wrote_pend"))
+                if cl is not None and cl[0] == ("popped_some",) and cl[1] is False:
+                    # a pop right after a push on this path cannot find the text empty
+                    pops = [i_ for i_, e_ in enumerate(s2.effects) if e_[0] == "pop"]
+                    if pops and pops[-1] >= 1 and s2.effects[pops[-1] - 1][0] in ("push", "push_str") and s2.effects[pops[-1] - 1][1] != "":
+                        continue
                 if cl is None:
                     drop_flag = False
                     if t["discr"]["k"] != "const" and not t["discr"]["place"]["p"]:
